@@ -811,3 +811,6 @@ mutant('C19', 'angle-zero-rejected', UN, "        if value < 0:\n            rai
 # ------------------------------------------------------------------------------------------ C05 constructors store what they are given (sweep D)
 mutant('C05', 'torque-ctor-stores-abs', UN, "        self.__value = value\n        self.__unit = unit\n", "        self.__value = abs(value)\n        self.__unit = unit\n", 'C05.ctor', nth=5)
 mutant('C05', 'ctor-drops-unit', UN, "        self.__value = value\n        self.__unit = unit\n", "        self.__value = value\n", 'C05.ctor', nth=3)
+
+# ------------------------------------------------------------------------------------------ C12 pre-run state read at instant 0
+mutant('C12', 'control-before-load-torque', SV, "        self._compute_load_torque()\n        self._compute_motor_control(motor_control=motor_control)\n", "        self._compute_motor_control(motor_control=motor_control)\n        self._compute_load_torque()\n", 'C12.reset')
